@@ -1246,6 +1246,10 @@ pub fn step(m: &M, cfg: &SpecCfg, actor: &Actor, line: &str) -> Option<Exp> {
             if p.len() < 2 {
                 return None;
             }
+            // a name configured more than once: which entry "that operator" is, is the server's choice
+            if cfg.opers.iter().filter(|o| o.name == p[0]).count() > 1 {
+                return None;
+            }
             match cfg.opers.iter().find(|o| o.name == p[0]) {
                 None => {
                     e.actor.push(num_any("491").one_of(1));
